@@ -428,7 +428,18 @@ def p_repeated_wire(k, be):
 p_repeated_wire.expected_glue = [3, 5]
 
 
-PROGRAMS = dict(repeated_wire=(p_repeated_wire, ("x",)), similar_names=(p_similar_names, ("x",)), inconsistent_even=(p_inconsistent_even, ("x",)), inconsistent_extra=(p_inconsistent_extra, ("x",)),
+def p_zero_coeff_arg(k, be):
+    """arguments / results whose linear combination carries a zero-coefficient term (a public weight 0) in front"""
+    @be.subqap("madd")
+    def madd(a, b):
+        return a * b + a * 0 + b           # result: product wire, a zero term, an input wire
+    x = k.S("x"); y = k.S("y")
+    r = madd(x * 0 + y, 0 * y + x * 1)     # each argument has exactly one non-zero term, preceded by a zero one
+    (r + 1).val()
+p_zero_coeff_arg.expected_glue = [3]
+
+
+PROGRAMS = dict(zero_coeff_arg=(p_zero_coeff_arg, ("x", "y")), repeated_wire=(p_repeated_wire, ("x",)), similar_names=(p_similar_names, ("x",)), inconsistent_even=(p_inconsistent_even, ("x",)), inconsistent_extra=(p_inconsistent_extra, ("x",)),
                 pub_around_call=(p_pub_around_call, ("x", "y")), pub_inside_call=(p_pub_inside_call, ("x",)),
                 scaled=(p_scaled_result, ("x",)), inconsistent=(p_inconsistent, ("x",)), main=(p_main, ("x", "y")), call1=(p_call1, ("x",)), call2=(p_call2, ("x", "y")),
                 call3_list=(p_call3_list, ("x", "y")), nested=(p_nested, ("x",)))
